@@ -7,7 +7,8 @@ A direct-oracle failure at operation j of a case is reported
     defects of the unchanged tree are enumerated one by one, each with its replay, in
     known_findings.d/<PID>.json — a key that is not listed there is a VIOLATION;
   * under "<key>@behaviour-differs-from-model" otherwise: the real code does something
-    the transcription of the pinned source does not — always a VIOLATION.
+    the transcription of the pinned source does not — always a VIOLATION; this includes oracle
+    failures later in a history on which the real Session has already left the transcription.
 The oracle only looks at the prefix of a case the model speaks about (up to the first
 abstention: set-order dependent outcome or corrupted identity map).
 """
@@ -67,7 +68,10 @@ def evaluate(ctx, cases, label, prop, enumerated=None, never_catchall=()):
                     vouched = j
                     break
         upto = vouched + (1 if diverge_at is not None else 0)
-        if f is not None and f["i"] < upto:
+        # once the real behaviour has left the transcription (not: the model abstains) the case is a
+        # failure of the correspondence anyway; an oracle failure later in such a case is the
+        # concrete consequence of the divergence and is reported with the whole history up to it
+        if f is not None and (f["i"] < upto or diverge_at is not None):
             key = "%s-%s:%s" % (prop, f["check"], f["sig"])
             if diverge_at is not None and f["i"] >= diverge_at:
                 key += "@behaviour-differs-from-model"
@@ -81,7 +85,9 @@ def evaluate(ctx, cases, label, prop, enumerated=None, never_catchall=()):
 
 PROBES = [[("flush",)], [("commit",)], [("rollback",)], [("close",)], [("expunge_all",)], [("commit",), ("rollback",)],
           [("get", 1)], [("get", 2)], [("get", 3)], [("flush",), ("rollback",)], [("nbegin",), ("rollback",)],
-          [("query", 0, 0)], [("query", 1, 0)], [("commit",), ("query", 0, 0)]]
+          [("query", 0, 0)], [("query", 1, 0)], [("commit",), ("query", 0, 0)],
+          [("add", 0), ("flush",)], [("add", 1), ("flush",)], [("add", 0), ("commit",)], [("add", 1), ("commit",)],
+          [("add", 0), ("flush",), ("commit",), ("expunge", 0), ("add", 0)], [("delete", 0), ("flush",)], [("merge", 0), ("flush",)]]
 
 
 def probe_cases(ctx):
